@@ -21,33 +21,36 @@ VARIABLES
     gst,        \* life cycle state of the guard's PROCESS and object
     gdeadphase, \* phase in which it died ("none" while alive)
     mq,         \* per monitor: the query in progress
-    cl,         \* per cleaner: [st, quiet, alone, epoch]
+    cl,         \* per cleaner: [st, quiet, alone, epoch, chg, fault]
     epoch,      \* counts cleaner events (to know whether a query ran undisturbed)
     touched,    \* some cleaner has owned the files (they may be partly removed)
+    begun,      \* some cleaner that owns the files has begun to remove them (its drop has started)
     bad
 
-pvars == <<gst, gdeadphase, mq, cl, epoch, touched, bad>>
+pvars == <<gst, gdeadphase, mq, cl, epoch, touched, begun, bad>>
 
 Phase == CASE gst \in {"notstarted", "startup"} -> "startup"
            [] gst = "running" -> "running"
            [] gst \in {"shutdown", "gone"} -> "shutdown"
            [] OTHER -> gdeadphase
 
-NoQuery == [on |-> FALSE, quiet |-> FALSE, epoch |-> 0]
-NoCleaner == [st |-> "idle", quiet |-> FALSE, alone |-> FALSE, epoch |-> 0]
+NoQuery == [on |-> FALSE, quiet |-> FALSE, deadrun |-> FALSE, epoch |-> 0]
+\* chg = the token files this cleaner has changed (removed / created / chmod-ed / written) during its attempt;
+\* fault = an operating-system failure is injected into this attempt (any error may then be returned)
+NoCleaner == [st |-> "idle", quiet |-> FALSE, alone |-> FALSE, epoch |-> 0, chg |-> {}, fault |-> FALSE]
 
 PInit ==
     /\ gst = "notstarted" /\ gdeadphase = "none"
     /\ mq = [m \in Monitors |-> NoQuery]
     /\ cl = [c \in Cleaners |-> NoCleaner]
-    /\ epoch = 0 /\ touched = FALSE
+    /\ epoch = 0 /\ touched = FALSE /\ begun = FALSE
     /\ bad = {}
 
 PReset ==
     /\ gst' = "notstarted" /\ gdeadphase' = "none"
     /\ mq' = [m \in Monitors |-> NoQuery]
     /\ cl' = [c \in Cleaners |-> NoCleaner]
-    /\ epoch' = 0 /\ touched' = FALSE
+    /\ epoch' = 0 /\ touched' = FALSE /\ begun' = FALSE
     /\ bad' = {}
 
 Record(b, pos) ==
@@ -61,21 +64,22 @@ GuardEvent(ev) ==
          [] ev = "drop_begin" -> gst = "running" /\ gst' = "shutdown"
          [] ev = "dropped" -> gst = "shutdown" /\ gst' = "gone"
          [] OTHER -> FALSE
-    /\ UNCHANGED <<gdeadphase, mq, cl, epoch, touched, bad>>
+    /\ UNCHANGED <<gdeadphase, mq, cl, epoch, touched, begun, bad>>
 
 GuardCrash ==
     /\ gst # "dead"
     /\ gdeadphase' = Phase
     /\ gst' = "dead"
-    /\ UNCHANGED <<mq, cl, epoch, touched, bad>>
+    /\ UNCHANGED <<mq, cl, epoch, touched, begun, bad>>
 
 \* ---- observers
 Active(c) == cl[c].st \in {"trying", "owner", "dropping"}
 
 QueryStart(m) ==
     /\ mq' = [mq EXCEPT ![m] = [on |-> TRUE, epoch |-> epoch,
-                                quiet |-> gst = "dead" /\ ~touched /\ \A c \in Cleaners : ~Active(c)]]
-    /\ UNCHANGED <<gst, gdeadphase, cl, epoch, touched, bad>>
+                                quiet |-> gst = "dead" /\ ~touched /\ \A c \in Cleaners : ~Active(c),
+                                deadrun |-> gst = "dead" /\ gdeadphase = "running"]]
+    /\ UNCHANGED <<gst, gdeadphase, cl, epoch, touched, begun, bad>>
 
 \* any verdict may be shown; lv = "pm" | "cal" | "node"
 Verdict(m, lv, v, pos) ==
@@ -86,21 +90,34 @@ Verdict(m, lv, v, pos) ==
                               \/ (lv # "pm" /\ v \notin {"Dead", "DoesNotExist"})
                               \/ (gdeadphase = "running" /\ v # "Dead"))
                  THEN {<<"undetected", lv, gdeadphase, v>>} ELSE {}
-       IN Record(b1 \cup b2, pos)
+           \* the process died while running (its files were complete) and no owner has begun to remove them:
+           \* "absent" would declare a cleanup finished that nobody has performed
+           b3 == IF v = "DoesNotExist" /\ mq[m].deadrun /\ ~begun THEN {<<"vanished", lv>>} ELSE {}
+       IN Record(b1 \cup b2 \cup b3, pos)
     /\ mq' = [mq EXCEPT ![m] = NoQuery]
-    /\ UNCHANGED <<gst, gdeadphase, cl, epoch, touched>>
+    /\ UNCHANGED <<gst, gdeadphase, cl, epoch, touched, begun>>
 
 \* ---- cleaners
 Terminal == {"idle", "failed", "done", "crashed", "crashed_owner"}
 
-CleanerStart(c) ==
+\* fault: an operating-system failure is injected into this attempt; the statement says nothing about the error
+\* such an attempt returns (quiet / alone are not claimed), only that a refused attempt changes nothing
+CleanerStart(c, fault) ==
     /\ cl[c].st = "idle"
-    /\ cl' = [cl EXCEPT ![c] = [st |-> "trying", epoch |-> epoch + 1,
-                                quiet |-> gst = "dead" /\ gdeadphase = "running",
-                                alone |-> gst = "dead" /\ gdeadphase = "running"
+    /\ cl' = [cl EXCEPT ![c] = [st |-> "trying", epoch |-> epoch + 1, chg |-> {}, fault |-> fault,
+                                quiet |-> ~fault /\ gst = "dead" /\ gdeadphase = "running",
+                                alone |-> ~fault /\ gst = "dead" /\ gdeadphase = "running"
                                           /\ \A o \in Cleaners \ {c} : cl[o].st \in Terminal]]
     /\ epoch' = epoch + 1
-    /\ UNCHANGED <<gst, gdeadphase, mq, touched, bad>>
+    /\ UNCHANGED <<gst, gdeadphase, mq, touched, begun, bad>>
+
+\* a system call of a cleaner on a token file (f), as recorded by the shim: what a cleaner that does not (yet)
+\* own the files changes is remembered until its result is known
+StateChanging(op, obs) == (op \in {"unlink", "create", "chmod"} /\ obs = "ok") \/ op = "write"
+CleanerSys(c, op, f, obs) ==
+    /\ cl' = IF cl[c].st = "trying" /\ StateChanging(op, obs) /\ f \in {"context", "state", "owner_lock"}
+             THEN [cl EXCEPT ![c].chg = @ \cup {f}] ELSE cl
+    /\ UNCHANGED <<gst, gdeadphase, mq, epoch, touched, begun, bad>>
 
 \* any result may be returned; left = which files are still linked ("---" = none), as seen by the controller
 \* lockop = the call by which the owner lock was taken ("lock" = F_SETLK, "lockw" = F_SETLKW), linked = the
@@ -116,24 +133,27 @@ CleanerResult(c, r, left, lockop, pos) ==
                  THEN {<<"unrecoverable", r, left>>} ELSE {}
            b4 == IF cl[c].quiet /\ r \notin {"Ok", "OwnedByAnother", "BeingCleanedUp", "DoesNotExist"}
                  THEN {<<"loser", r>>} ELSE {}
-       IN Record(b1 \cup b2 \cup b3 \cup b4, pos)
-    /\ cl' = [cl EXCEPT ![c].st = IF r = "Ok" THEN "owner" ELSE "failed"]
+           \* "exactly one performs the cleanup and the others are told so": whoever is refused has changed nothing
+           b5 == IF r # "Ok" /\ cl[c].chg # {} THEN {<<"refused", r>>} ELSE {}
+       IN Record(b1 \cup b2 \cup b3 \cup b4 \cup b5, pos)
+    /\ cl' = [cl EXCEPT ![c].st = IF r = "Ok" THEN "owner" ELSE "failed", ![c].chg = {}]
     /\ touched' = (touched \/ r = "Ok")
     /\ epoch' = epoch + 1
-    /\ UNCHANGED <<gst, gdeadphase, mq>>
+    /\ UNCHANGED <<gst, gdeadphase, mq, begun>>
 
 CleanerEvent(c, ev) ==
     /\ CASE ev = "cdrop_begin" -> cl[c].st = "owner" /\ cl' = [cl EXCEPT ![c].st = "dropping"]
          [] ev = "cdropped" -> cl[c].st = "dropping" /\ cl' = [cl EXCEPT ![c].st = "done"]
          [] OTHER -> FALSE
     /\ epoch' = epoch + 1
+    /\ begun' = (begun \/ ev = "cdrop_begin")
     /\ UNCHANGED <<gst, gdeadphase, mq, touched, bad>>
 
 CleanerCrash(c) ==
     /\ cl[c].st \in {"trying", "owner", "dropping"}
     /\ cl' = [cl EXCEPT ![c].st = IF cl[c].st = "trying" THEN "crashed" ELSE "crashed_owner"]
     /\ epoch' = epoch + 1
-    /\ UNCHANGED <<gst, gdeadphase, mq, touched, bad>>
+    /\ UNCHANGED <<gst, gdeadphase, mq, touched, begun, bad>>
 
 \* ---- the clauses of the property
 Kind(k) == {s \in bad : s[1] = k}
@@ -142,4 +162,6 @@ NoReclaimFromLive == Kind("reclaim") = {}
 DeadIsDetected == Kind("undetected") = {}
 ExclusiveCleanup == Kind("exclusive") = {} /\ Kind("loser") = {}
 CleanerCrashRecoverable == Kind("unrecoverable") = {}
+RefusedChangesNothing == Kind("refused") = {}
+AbsentOnlyAfterCleanup == Kind("vanished") = {}
 =============================================================================
